@@ -47,7 +47,8 @@ pub trait Reim4Convolution {
         assert!(a_size > 0);
         assert!(b_size > 0);
 
-        for k in (0..dst_size - 1).step_by(2) {
+        // dst_size may be 0 (the whole product lies below cnv_offset): nothing to compute
+        for k in (0..dst_size.saturating_sub(1)).step_by(2) {
             Self::reim4_convolution_2coeffs(k + offset, as_arr_mut(&mut dst[8 * k..]), a, a_size, b, b_size);
         }
 
@@ -68,7 +69,8 @@ pub trait Reim4Convolution {
     fn reim4_convolution_by_real_const(dst: &mut [f64], dst_size: usize, offset: usize, a: &[f64], a_size: usize, b: &[f64]) {
         assert!(a_size > 0);
 
-        for k in (0..dst_size - 1).step_by(2) {
+        // dst_size may be 0 (the whole product lies below cnv_offset): nothing to compute
+        for k in (0..dst_size.saturating_sub(1)).step_by(2) {
             Self::reim4_convolution_by_real_const_2coeffs(k + offset, as_arr_mut(&mut dst[8 * k..]), a, a_size, b);
         }
 
